@@ -419,6 +419,28 @@ def run(f, fixture, rep, cfg, tier):
                   "%s: encoder %s decoder %s finish %s" % (v, [c.decl for c in enc_arms.get(v, []) if "new" in c.decl][:2], [c.decl for c in dec_arms.get(v, []) if "new" in c.decl][:2], [c.decl for c in fin_arms.get(v, [])][:2]), ds.span)
         rep.check(names_by_variant.get(v) == [hs], "R6", "codec|%s|header-string" % v, "%s is recorded as \"%s\"" % (v, hs), "%s is recorded as %s" % (v, names_by_variant.get(v)), pd.span)
         rep.check(ft.get(hs) == v, "R6", "codec|%s|parser-key" % v, "\"%s\" parses to %s" % (hs, v), "\"%s\" parses to %s" % (hs, ft.get(hs)), frm[0].span if frm else None)
+    # each Compressor variant is built only in the arm of the requested type of the same name: a fallback arm (a codec whose
+    # cargo feature is off) must fail, not silently produce another codec's stream under the requested codec's header string
+    if tf2:
+        tfb = tf2[0]
+        sw_enc = None
+        for sb in sorted(tfb.reachable(), reverse=True):
+            info = switch_info(tfb, sb)
+            if info and info["kind"] == "discr" and (info.get("enum") or "").endswith("CompressionWithLevel"):
+                cand = arms_of(tfb, info)
+                if sw_enc is None or any(re.search(r"Encoder", c.decl) for t_ in cand.values() for c in tfb.calls() if tfb.dominates(t_, c.bb)):
+                    sw_enc = (sb, info, cand)
+        if sw_enc is not None:
+            sb, info, arms_e = sw_enc
+            for bb in tfb.reachable():
+                for st in tfb.stmts(bb):
+                    if st["k"] == "assign" and st["rv"]["r"] == "agg" and st["rv"].get("adt", "").endswith("compressor::Compressor") and st["rv"].get("ak") == "adt":
+                        v = st["rv"]["variant"]
+                        tgt = arms_e.get(v)
+                        okv = tgt is not None and tfb.dominates(tgt, bb) and all(not tfb.dominates(t2, bb) for n2, t2 in arms_e.items() if n2 != v and t2 != tgt)
+                        rep.check(okv, "R6", "codec|%s|built-in-own-arm" % v, "Compressor::%s is built only for a request of %s" % (v, v),
+                                  "Compressor::%s is built outside the arm that handles a %s request (e.g. as a fallback for a codec that is not compiled in): the header would name one codec and the payload use another" % (v, v),
+                                  "%s:%s" % (tfb.file, st.get("line")))
     # a decoder is used as constructed: any further call on it (window / memory limits, format switches) can make it refuse
     # what the encoder of the same family legitimately produced
     tuned = [c for c in ds.calls() if re.search(r"(Decoder|decoder)", c.decl) and not re.search(r"::new$", c.decl)
